@@ -1,5 +1,5 @@
 """C05 — timed and cancellable waits return for the stated reason, holding the lock."""
-from props.shared import mu_groups, cv_groups
+from props.shared import mu_groups, cv_groups, sem_wait_groups
 
 ID = "C05"
 LEVEL = "proof"
@@ -12,12 +12,15 @@ EXPLANATION = (
     "dequeued itself under lock + spinlock. The timeout re-acquisition helper returns either holding the caller's mode with the waiter "
     "dequeued, or holding nothing. nsync_cv_wait_with_deadline_generic (nsync_mu in read or write mode, or a generic lock): returns "
     "holding the lock in the mode held on entry; a non-zero result is the outcome of its own sleep and is reported only after it removed "
-    "itself from the cv queue under the cv spinlock with remove_count unchanged.")
-ASSUMPTIONS = ["nsync_sem_wait_with_cancel_ returns 0 / ETIMEDOUT / ECANCELED (its reasons: group pending); the condition is an arbitrary client function"]
+    "itself from the cv queue under the cv spinlock with remove_count unchanged. nsync_sem_wait_with_cancel_ (the reasons): ETIMEDOUT only "
+    "if the timed semaphore wait was given exactly abs_deadline and timed out (so by C12 the deadline has been reached); ECANCELED only if "
+    "the note is notified at return (flag set, or expiry <= 0, or its expiry was reached and the notification performed); with no note the "
+    "result is that of the timed wait; at most one sleep per call.")
+ASSUMPTIONS = ["the condition is an arbitrary client function"]
 NOT_DECIDED = ["termination of the spin-acquire after a timeout (liveness)"]
 TRUSTED = []
 
 
 def groups(tier):
     return mu_groups(tags=["C05", "C01"], which=["mu.wait_with_deadline", "mu.try_acquire_after_timeout", "mu.lock_slow"]) + \
-           cv_groups(tags=["C05", "C01", "C04"], which=["cv.wait_with_deadline_generic"])
+           cv_groups(tags=["C05", "C01", "C04"], which=["cv.wait_with_deadline_generic"]) + sem_wait_groups(tags=["C05", "C13"])
